@@ -69,7 +69,7 @@ def run(res, args):
     if not ok:
         return res.finish()
     rng = common.rng_for(res.seed, "c08")
-    n = 1200 if res.tier == "quick" else 20000
+    n = 1200 if res.tier == "quick" else 60000
     tuples = gen_tuples(rng, n)
     # MSM4/MSM7 agreement: add the MSM7 twin of every valid MSM4 tuple
     twins = {}
